@@ -596,36 +596,52 @@ theorem handleLogon_shape (g0 : G8) (s : Sess) (m : InMsg) (hk : isAdminKind (ki
       | none =>
         simp only []
         by_cases hr : logonRefuses s4 m (logonResetFlag m) = true
-        · have e : logonTail s4 m = (logonRefused s4 m, some (.rej .rejectLogon)) := by unfold logonTail; rw [if_pos hr]
+        · have e : ∀ ns, logonTail s4 m ns = (logonRefused s4 m, some (.rej .rejectLogon)) := by intro ns; unfold logonTail; rw [if_pos hr]
           rw [e]
           refine Or.inl ⟨_, rfl, rfl, h4.trans ?_⟩
           unfold logonRefused
           q_cases
-        · have e : logonTail s4 m = logonFinish (logonReply s4 m (logonResetFlag m)) m s4.store.sender := by
-            unfold logonTail; rw [if_neg hr]
+        · have e : ∀ ns, logonTail s4 m ns = logonFinish (logonReply s4 m (logonResetFlag m)) m ns := by
+            intro ns; unfold logonTail; rw [if_neg hr]
           rw [e]
           exact Or.inr ⟨_, _, h4.trans (p_logonReply true g0 s4 m _), fun hW hnl => ready_logonReply g0 s4 m _ (h4.w hW) (by rw [h4.fr.st]; exact hnl), rfl, hseq rfl⟩
 
-/-- `logonFinish` with a readable MsgSeqNum: the notification, the peer's tag 789, then either a too-high verdict or the
-    number consumed -/
+/-- the evaluation of the peer's tag 789 reports nothing but a too-high verdict -/
+theorem nxEval_err (s : Sess) (m : InMsg) (ns : Int) (e : Rej) (h : (nxEval s m ns).2 = some e) : ∃ a b, e = .tooHigh a b := by
+  unfold nxEval at h
+  repeat' split at h
+  all_goals first | (cases h; exact ⟨_, _, rfl⟩) | cases h
+
+/-- `logonFinish` with a readable MsgSeqNum: the notification, the peer's tag 789, then either a too-high verdict (the gap
+    check's, or the one the evaluation of tag 789 reports without persistence) or the number consumed -/
 theorem logonFinish_spec (x : Sess) (m : InMsg) (ns n : Int) (hn : getInt m 34 = .val n) :
-    let y := nxEval (((x.setSentReset false).emit (.armPeer (1200 * x.hb))).emit .onLogon) m ns
+    let y := (nxEval (((x.setSentReset false).emit (.armPeer (1200 * x.hb))).emit .onLogon) m ns).1
     logonFinish x m ns = (incrTarget y, none) ∨ ∃ a b, logonFinish x m ns = (y, some (.rej (.tooHigh a b))) := by
-  unfold logonFinish checkTooHigh
-  simp only [hn]
-  split
-  · rename_i r hr
-    split at hr
-    · cases hr; exact Or.inr ⟨_, _, rfl⟩
-    · cases hr
-  · exact Or.inl rfl
+  unfold logonFinish
+  have he := nxEval_err (((x.setSentReset false).emit (.armPeer (1200 * x.hb))).emit .onLogon) m ns
+  generalize nxEval _ m ns = r at he
+  obtain ⟨y, o⟩ := r
+  cases o with
+  | some e =>
+    obtain ⟨a, b, rfl⟩ := he e rfl
+    exact Or.inr ⟨a, b, rfl⟩
+  | none =>
+    simp only []
+    unfold checkTooHigh
+    simp only [hn]
+    split
+    · rename_i r hr
+      split at hr
+      · cases hr; exact Or.inr ⟨_, _, rfl⟩
+      · cases hr
+    · exact Or.inl rfl
 
 theorem gapFillRe_ok (s : Sess) (m : InMsg) (a b : Int) : ((gapFillRe s m a b).kind == "5") = false ∧ appFirst (gapFillRe s m a b) = false :=
   ⟨rfl, appFirst_admin _ (by show isAdminKind "4" = true; decide)⟩
 
 /-- the evaluation of the peer's tag 789 in a state that has been logged on: a gap fill at most -/
 theorem pn_nxEval_notif (g0 : G8) (x : Sess) (m : InMsg) (ns : Int) (hn : (x.st.loggedOn || x.st.isLogout) = true) :
-    PN g0 x (nxEval x m ns) := by
+    PN g0 x (nxEval x m ns).1 := by
   unfold nxEval
   repeat' split
   all_goals first
@@ -643,14 +659,19 @@ theorem pn_onLogon_again (g0 : G8) (s : Sess) (hn : (s.st.loggedOn || s.st.isLog
 
 theorem p_logonFinish_notif (g0 : G8) (x : Sess) (m : InMsg) (ns : Int) (hn : (x.st.loggedOn || x.st.isLogout) = true) :
     P true g0 x (logonFinish x m ns).1 := by
-  have hy : P true g0 x (nxEval (((x.setSentReset false).emit (.armPeer (1200 * x.hb))).emit .onLogon) m ns) :=
+  have hy : P true g0 x (nxEval (((x.setSentReset false).emit (.armPeer (1200 * x.hb))).emit .onLogon) m ns).1 :=
     ((by q_peel : P true g0 x ((x.setSentReset false).emit (.armPeer (1200 * x.hb)))).pn (pn_onLogon_again g0 _ hn)).pn
       (pn_nxEval_notif g0 _ m ns hn)
   unfold logonFinish
-  simp only []
-  split
-  · exact hy
-  · exact qpeel_incrTarget hy
+  generalize nxEval _ m ns = r at hy
+  obtain ⟨y, o⟩ := r
+  cases o with
+  | some e => exact hy
+  | none =>
+    simp only [] at hy ⊢
+    split
+    · exact hy
+    · exact qpeel_incrTarget hy
 
 theorem p_handleLogon_notif (g0 : G8) (s : Sess) (m : InMsg) (hk : isAdminKind (kindOf m) = true)
     (hn : (s.st.loggedOn || s.st.isLogout) = true) : P true g0 s (handleLogon s m).1 := by
